@@ -6,7 +6,11 @@ FILE = "compiler/src/ast/function_parameters.rs"
 
 SPEC = r"""
 pub struct Ident { pub name: VStr, pub ty: Option<TypeLayout>, pub read_only: bool }
-#[verifier::external_body] pub fn parse_ident(n: Node) -> (r: Result<Ident, VErr>) { unimplemented!() }
+// Parser::ident begins with `debug_assert_eq!(input.as_rule(), Rule::ident)`: handed any other node it panics (R8) -- `fn f(self: int)` in a class hands
+// it the type node behind `self` (D92)
+pub uninterp spec fn is_ident_rule(n: &Node) -> bool;
+#[verifier::external_body] pub fn node_is_ident(n: &Node) -> (r: bool) ensures r == is_ident_rule(n) { unimplemented!() }
+#[verifier::external_body] pub fn parse_ident(n: Node) -> (r: Result<Ident, VErr>) requires is_ident_rule(&n) { unimplemented!() }
 #[verifier::external_body] pub fn ident_self() -> (r: Ident) { unimplemented!() }                         // Ident::new("self", Some(ClassSelf(None)), false)
 #[verifier::external_body] pub fn add_dependency(n: &Node, i: &Ident) { unimplemented!() }
 #[verifier::external_body] pub fn link_force_no_inherit(i: &mut Ident, n: &Node, t: TypeLayout) -> (r: Result<(), VErr>) { unimplemented!() }
@@ -48,6 +52,7 @@ def build(repo):
         Rule("R1", "let ty_span = ty . as_span ( ) ;", "", why="span only feeds diagnostics"),
         Rule("R6", "Self :: ident ( ident_node ) ?", "parse_ident ( ident_node ) ?", why="sub-parser abstract"),
         Rule("R6", "ty . as_rule ( ) != Rule :: r#type", "! node_is_type ( & ty )", why="pest rule test abstract"),
+        Rule("R6", "ident_node . as_rule ( ) != Rule :: ident", "! node_is_ident ( & ident_node )", why="pest rule test abstract"),
         Rule("R6", "let ty : Cow < 'static , TypeLayout > = Self :: r#type ( ty ) ? ;", "let ty = parse_type ( ty ) ? ;", why="sub-parser abstract"),
         Rule("R6", "ty . is_class_self ( )", "is_class_self ( & ty )", why="type query abstract"),
         Rule("R3", "return Err ( new_err ( $$a ) ) ;", "return Err ( VErr ) ;", why="diagnostic construction dropped"),
@@ -70,7 +75,7 @@ pub fn function_parameters(input: Node, add_to_scope_dependencies: bool, require
 fn main() {{}}
 """
     return gen, [Obl("C16.params.self-required", ["C16", "C03", "C08"], fn="Parser::function_parameters",
-                     desc="Parser::function_parameters: with require_self_param the list is accepted only if its first entry is `self` in a class method (so constructors / methods never have an empty parameter list)")], log
+                     desc="Parser::function_parameters: with require_self_param the list is accepted only if its first entry is `self` in a class method (so constructors / methods never have an empty parameter list); Parser::ident is only handed ident nodes (never panics on `self: T`)")], log
 
 
 UNITS = [VUnit("c16_params", ["C16", "C03", "C08"], "function parameters: `self` first where required", build)]
